@@ -34,6 +34,27 @@ CHECKS = {
              "and the coefficient-wise operations with p incl. INT32_MIN; TLC recomputes each result from the definition with 16-bit-limb arithmetic and compares exactly.",
         note="Trusted: TLC, Word32 limb arithmetic (itself exercised by all rows). Dense 1024-term products are not recomputed by TLC (cost); large N is covered through bilinearity-style sparse inputs.",
         design="§6 C11"),
+    "C14": dict(
+        category="model_checking",
+        technique="TLA+ spec LweScheme (operations + the AVX2 subtraction's footprint) model-checked by TLC; rows from the real LWE/TLWE routines with red-zoned arrays, "
+                  "every n in 1..40 and {500,630,1023,1024,1025,2048}, every extraction index, validated by TLC at full width (Table_C14)",
+        text="TLC checks on all samples/keys/multipliers of a small instance that each LWE operation is a phase homomorphism with the stated variance rule, and that the 8-lane subtraction "
+             "of the optimised build touches exactly words 0..n-1 for every n (the pinned do-while variant is rejected: that is defect D2, repaired). The real routines (optim AVX2 and debug builds) are run "
+             "on random and extreme samples for every listed dimension with masks placed in red-zoned buffers; TLC recomputes every output coefficient, the library's own lwePhase values, the variance "
+             "annotation and requires zero damaged guard words. TLWE operations (N in 2..1024, k in 1..3, incl. X^a-1) and tLweExtractLweSampleIndex for every j (dense with true TLWE phase for small N incl. "
+             "non powers of two, boundary-crossing sparse samples for large N) are validated the same way.",
+        note="Trusted: TLC and the Word32 limb arithmetic; red zones are 32 words each side (an overflow farther away is not seen). Coefficient equality is checked, which is stronger than phase equality.",
+        design="§6 C14"),
+    "C08": dict(
+        category="model_checking",
+        technique="TLA+ spec LweScheme.KeySwitchCode (digit extraction with prec_offset, skip of digit 0, subtraction of rows) model-checked by TLC per layout; "
+                  "real lweKeySwitch on noiseless keys from the real generator validated row by row by TLC (Table_C08)",
+        text="For each layout of a grid TLC enumerates every mask value of the W-bit torus (W = t*basebit+1/+2), all keys, n_in up to 3, and checks that the extracted digits recompose to the nearest multiple "
+             "(ties either way, carries across digits, wrap at the top) and that the output phase equals b - sum s_i Round(a_i) exactly, hence differs from the input phase by at most 2^-(t*basebit+1) per set key bit. "
+             "The real routine is run with key-switching keys produced by lweCreateKeySwitchKey at noise 0 for 15 layouts (incl. basebit 1, t*basebit = 31) and dimensions incl. 1, 3, 9, 13: inputs on half-points, grid points, "
+             "all-ones digits, just below 1/2 and just below 1; TLC checks the exact relation, the stated bound, every generated key row (digit-0 rows trivial), lwePhase consistency and intact red zones.",
+        note="Noise statistics of noisy keys are not part of this check (see C02/C07). Full 2^32 enumeration at 32 bits is replaced by the exhaustive W-bit model + boundary families.",
+        design="§6 C08"),
 }
 
 NOT_YET = {}
